@@ -42,3 +42,4 @@ run D15b 749b36b "C20"
 run D15c 6522497 "C20"
 git -C /repo status --short
 echo DONE | tee -a $OUT
+run D16 9329cef "C13"
